@@ -7,7 +7,7 @@ package mta
 // on both sides and the verifier's Pedersen parameters nothing panics (the sampled mask is far inside both Paillier
 // plaintext ranges); the outputs are fresh and complete.
 //@ func newMta
-//@   nopanic[C05]
+//@   nopanic[C05,C12]
 //@   use bits
 //@   requires senderSecretShare != nil
 //@   requires receiverEncryptedShare != nil
@@ -20,7 +20,7 @@ package mta
 //@   allocates
 //@   ensures result0 != nil && result0.c != nil && result1 != nil && result1.c != nil && result2 != nil && result3 != nil && result4 != nil && fresh(result4)
 //@ func ProveAffG
-//@   nopanic[C05]
+//@   nopanic[C05,C12]
 //@   use bits
 //@   requires group != nil
 //@   requires h != nil
@@ -38,7 +38,7 @@ package mta
 //@   allocates
 //@   ensures result0 != nil && result1 != nil && result2 != nil && result3 != nil
 //@ func ProveAffP
-//@   nopanic[C05]
+//@   nopanic[C05,C12]
 //@   use bits
 //@   requires group != nil
 //@   requires h != nil
